@@ -61,3 +61,9 @@ claim("C22", "property-based testing: generated special-mode injections with uni
 claim("C23", "property-based testing of call histories: generated tagged additions and tagged probes; oracle = exactly one side-effect record per tag with the item's content, none for parsed items, probe bodies resolved through the decoded output by identity",
       "Stateful generated search over histories of tagged additions (types, imports, exports, functions, globals, memories, data) and tagged probes of every mode on identity-carrying bases, followed by pull_side_effects and encode; record set, record content and index space of probe bodies are compared with the model.",
       _edit_note, "DESIGN.md 5/C23")
+claim("C24", "property-based testing: every helper of Opcode/MacroOpcode x generated immediates (boundary values, NaN payloads, values above i32/i64::MAX) through FunctionBuilder and ModuleIterator; oracle = byte equality of the encoded function body with wasm-encoder's encoding of the instruction a hand-written name table prescribes; plus exhaustive enumeration of all helpers",
+      "Generated-input search over (helper, immediates, path); all 200 helpers are additionally enumerated with three fixed immediate sets on both paths in every run; a source scan of the two trait blocks reports helpers missing from the table.",
+      "Trusted: the name -> instruction table (written from helper names and spec mnemonics, not from helper bodies); wasm-encoder's instruction encoding.", "DESIGN.md 5/C24")
+claim("C25", "property-based testing: generated modules x generated skip lists plus exhaustive enumeration of all skip subsets for <=4 local functions; oracle = independently decoded instruction list of the non-skipped functions (location, operator, end flag), also after reset() and after a reset in the middle of a walk",
+      "Generated-input search over modules (0-5 local functions) and skip lists (empty, first, last, trailing, all, random, foreign IDs); the visit sequence must equal the decoded instruction lists; no panic on modules without local functions or with everything skipped.",
+      "Trusted: wasmparser operator reader as the reference instruction list; an empty iteration is observed through curr_op()/next() returning None (curr_loc() is only called while curr_op() is Some).", "DESIGN.md 5/C25")
